@@ -987,7 +987,28 @@ struct Outcome {
     classes: Vec<String>,
 }
 
+/// seconds since the process started at which the history being run is declared hung (0 = no limit)
+static HUNG_AT: AtomicU64 = AtomicU64::new(0);
+static STARTED: std::sync::OnceLock<std::time::Instant> = std::sync::OnceLock::new();
+
+/// Worker processes give every history 30 s (a history takes well under a second): code that reads through a
+/// dangling pointer may spin or block for ever instead of crashing; the parent then sees exit code 97 after the
+/// `START` line of that history, like a crash, instead of waiting for the batch's timeout.
+fn start_watchdog() {
+    STARTED.get_or_init(std::time::Instant::now);
+    std::thread::spawn(|| loop {
+        std::thread::sleep(std::time::Duration::from_millis(200));
+        let limit = HUNG_AT.load(Ordering::SeqCst);
+        if limit != 0 && STARTED.get().unwrap().elapsed().as_secs() >= limit {
+            std::process::exit(97);
+        }
+    });
+}
+
 fn run_history(h: &[Op], drv: Option<&mut Driver>, progress: bool) -> Outcome {
+    if let Some(t0) = STARTED.get() {
+        HUNG_AT.store(t0.elapsed().as_secs() + 30, Ordering::SeqCst);
+    }
     let mut out = Outcome { violations: vec![], mismatches: vec![], signature: String::new(), classes: vec![] };
     LIVE.lock().unwrap().clear();
     BAD_DROPS.store(0, Ordering::SeqCst);
@@ -1607,7 +1628,7 @@ fn main() {
                 crashes.set(crashes.get() + 1);
                 let h = &gen_boundary()[idx as usize];
                 rep.violation(
-                    "the process died (use-after-free / double free) while running this history (and then dropping what it left alive)",
+                    "the process died or hung (use-after-free / double free) while running this history (and then dropping what it left alive)",
                     &format!("crash {}", crash_key(h)),
                     json!({"history": hist_text(h), "ended": format!("{how:?}"), "origin": {"boundary": idx}}),
                 );
@@ -1620,7 +1641,7 @@ fn main() {
                     crashes.set(crashes.get() + 1);
                     let h = &gen_exhaustive(depth)[(off + idx) as usize];
                     rep.violation(
-                        "the process died (use-after-free / double free) while running this history (and then dropping what it left alive)",
+                        "the process died or hung (use-after-free / double free) while running this history (and then dropping what it left alive)",
                         &format!("crash {}", crash_key(h)),
                         json!({"history": hist_text(h), "ended": format!("{how:?}"), "origin": {"exhaustive-depth": depth, "index": off + idx}}),
                     );
@@ -1636,7 +1657,7 @@ fn main() {
                     crashes.set(crashes.get() + 1);
                     let h = gen_random(&mut Prng::for_case(seed, off + idx));
                     rep.violation(
-                        "the process died (use-after-free / double free) while running this history (and then dropping what it left alive)",
+                        "the process died or hung (use-after-free / double free) while running this history (and then dropping what it left alive)",
                         &format!("crash {}", crash_key(&h)),
                         json!({"history": hist_text(&h), "ended": format!("{how:?}"), "origin": {"seed": seed, "index": off + idx}}),
                     );
@@ -1652,7 +1673,7 @@ fn main() {
                     crashes.set(crashes.get() + 1);
                     let h = &gen_exhaustive(depth)[(off + idx) as usize];
                     rep.violation(
-                        "the process died (use-after-free / double free) while running this history (and then dropping what it left alive)",
+                        "the process died or hung (use-after-free / double free) while running this history (and then dropping what it left alive)",
                         &format!("crash {}", crash_key(h)),
                         json!({"history": hist_text(h), "ended": format!("{how:?}"), "origin": {"exhaustive-depth": depth, "index": off + idx}}),
                     );
@@ -1669,6 +1690,7 @@ fn main() {
         }
         Some("worker") => match args[2].as_str() {
             "bnd" => {
+                start_watchdog();
                 let from: usize = args[3].parse().unwrap();
                 let n: usize = args[4].parse().unwrap();
                 let all = gen_boundary();
@@ -1680,6 +1702,7 @@ fn main() {
                 }
             }
             "exh" => {
+                start_watchdog();
                 let depth: usize = args[3].parse().unwrap();
                 let off: usize = args[4].parse().unwrap();
                 let from: usize = args[5].parse().unwrap();
@@ -1697,6 +1720,7 @@ fn main() {
                 }
             }
             "random" => {
+                start_watchdog();
                 let seed: u64 = args[3].parse().unwrap();
                 let off: u64 = args[4].parse().unwrap();
                 let from: u64 = args[5].parse().unwrap();
@@ -1712,6 +1736,7 @@ fn main() {
             }
             // one history, with the model
             "one" => {
+                start_watchdog();
                 let h = parse_hist(&args[3]).expect("history");
                 let mut drv = Driver::spawn().expect("lean driver");
                 println!("START 0");
@@ -1753,7 +1778,7 @@ fn main() {
                 how => {
                     rep.evaluations += 1;
                     rep.violation(
-                        "the process died (use-after-free / double free) while running this history",
+                        "the process died or hung (use-after-free / double free) while running this history",
                         &format!("crash {}", crash_key(&h)),
                         json!({"history": hs, "ended": format!("{how:?}")}),
                     );
